@@ -167,3 +167,11 @@ func VerifTakeSent(p *Protocol) Message {
 	m := <-p.sendQueueChan
 	return m.message
 }
+
+// VerifStateLoopIO: the real stateLoop as a goroutine body, a function that files a
+// transition request with it, and the channel all results arrive on.
+func VerifStateLoopIO(p *Protocol) (run func(), request func(Message), results chan error) {
+	ch := make(chan protocolStateTransition, 16)
+	results = make(chan error, 16)
+	return func() { p.stateLoop(ch) }, func(m Message) { ch <- protocolStateTransition{m, results} }, results
+}
